@@ -66,6 +66,14 @@ fn morph<D: DictionaryAccess + Clone>(m: &Morpheme<D>, dict: &D, depth: usize) -
         "dform": cps(m.dictionary_form()), "norm": cps(m.normalized_form()), "reading": cps(m.reading_form()),
         "wid": [wid.dic(), wid.word()], "dic": m.dictionary_id(), "oov": m.is_oov(), "syn": m.synonym_group_ids(),
     });
+    // the word information object as the library's accessors show it (Morpheme.get_word_info() of the binding)
+    let wi = m.get_word_info();
+    let ids = |a: &[sudachi::dic::word_id::WordId]| -> Vec<[u32; 2]> { a.iter().map(|w| [w.dic() as u32, w.word()]).collect() };
+    v["winfo"] = json!({
+        "surface": cps(wi.surface()), "hwl": wi.head_word_length(), "pos_id": wi.pos_id(), "norm": cps(wi.normalized_form()),
+        "dfwid": wi.dictionary_form_word_id(), "dform": cps(wi.dictionary_form()), "reading": cps(wi.reading_form()),
+        "a": ids(wi.a_unit_split()), "b": ids(wi.b_unit_split()), "ws": ids(wi.word_structure()), "syn": wi.synonym_group_ids(),
+    });
     if depth > 0 {
         let mut splits = Vec::new();
         for mode in [Mode::A, Mode::B, Mode::C] {
